@@ -1,3 +1,274 @@
+//! C25: replicated sequencers never commit different blocks at the same height.
+//!
+//! Real code under exploration: `RedisLeaderLeaseAdapter` (fuel-core), the real
+//! `redis` client it uses, and the text of the six Lua scripts (read from the
+//! repository at run time, executed by mini-Lua over MiniRedis). Model code: the
+//! Lua interpreter, the ten Redis commands, and the replica driver that plays
+//! PoA `MainTask` + importer (see `world.rs`).
+mod lua;
+mod miniredis;
+mod resp;
+mod world;
+
+use mcx::*;
+use serde_json::json;
+use std::{
+    sync::atomic::{AtomicU64, Ordering},
+    time::Duration,
+};
+use world::{Cfg, Fate, Interf, Op, World};
+
+/// Worlds older than this are rebuilt before the next letter: the `redis`
+/// client's built-in 500 ms response timer must never get a chance to fire.
+const REFRESH_AGE: Duration = Duration::from_millis(120);
+const MAX_AGE: Duration = Duration::from_millis(350);
+
+static REBUILDS: AtomicU64 = AtomicU64::new(0);
+static HEIGHT_EXISTS: AtomicU64 = AtomicU64::new(0);
+static FENCED: AtomicU64 = AtomicU64::new(0);
+static LOCK_HELD: AtomicU64 = AtomicU64::new(0);
+static UNRECONCILED: AtomicU64 = AtomicU64::new(0);
+static REPAIR_WRITES: AtomicU64 = AtomicU64::new(0);
+static NODE_HEIGHT_DUP: AtomicU64 = AtomicU64::new(0);
+static LEADER_CHANGES: AtomicU64 = AtomicU64::new(0);
+
+struct Managed {
+    world: Option<World>,
+    history: Vec<Op>,
+}
+
+struct C25 {
+    cfg: Cfg,
+}
+
+impl C25 {
+    fn build(&self, history: &[Op]) -> Result<World, Interf> {
+        let mut w = World::new(self.cfg.clone())?;
+        for op in history {
+            w.apply(op)?;
+            if w.check().is_err() {
+                return Err(Interf("accepted history violates on rebuild".into()));
+            }
+            if w.age() > MAX_AGE {
+                return Err(Interf("rebuild too slow".into()));
+            }
+        }
+        Ok(w)
+    }
+}
+
+fn count(obs: &str) {
+    let c = |pat: &str, ctr: &AtomicU64| {
+        if obs.contains(pat) {
+            ctr.fetch_add(1, Ordering::Relaxed);
+        }
+    };
+    c("HEIGHT_EXISTS", &HEIGHT_EXISTS);
+    c("FENCING_ERROR", &FENCED);
+    c("LOCK_HELD", &LOCK_HELD);
+    c("unreconciled", &UNRECONCILED);
+}
+
+impl Subject for C25 {
+    type World = Managed;
+    type Op = Op;
+
+    fn name(&self) -> String {
+        self.cfg.name.clone()
+    }
+
+    fn fresh(&self) -> Managed {
+        for _ in 0..5 {
+            if let Ok(w) = World::new(self.cfg.clone()) {
+                return Managed { world: Some(w), history: vec![] };
+            }
+        }
+        machinery_failure("cannot build the C25 world (sockets/threads)")
+    }
+
+    fn enabled(&self, m: &Managed) -> Vec<Op> {
+        m.world.as_ref().unwrap().enabled()
+    }
+
+    fn step(&self, m: &mut Managed, op: &Op) -> Result<String, Violation> {
+        let mut last = String::new();
+        for _attempt in 0..6 {
+            let stale = match &m.world {
+                Some(w) => w.age() > REFRESH_AGE,
+                None => true,
+            };
+            if stale {
+                m.world = None; // tear the old one down first
+                REBUILDS.fetch_add(1, Ordering::Relaxed);
+                match self.build(&m.history) {
+                    Ok(w) => m.world = Some(w),
+                    Err(Interf(e)) => {
+                        last = e;
+                        continue;
+                    }
+                }
+            }
+            let w = m.world.as_mut().unwrap();
+            match w.apply(op) {
+                Ok(obs) if w.age() <= MAX_AGE => {
+                    m.history.push(op.clone());
+                    count(&obs);
+                    w.check()?;
+                    if w.diag_node_height_dup {
+                        NODE_HEIGHT_DUP.fetch_add(1, Ordering::Relaxed);
+                    }
+                    return Ok(obs);
+                }
+                Ok(_) => {
+                    last = "letter finished after the age limit".into();
+                    m.world = None;
+                }
+                Err(Interf(e)) => {
+                    last = e;
+                    m.world = None;
+                }
+            }
+        }
+        machinery_failure(&format!("{}: harness could not execute {op:?} after retries: {last}", self.cfg.name))
+    }
+
+    fn canon(&self, m: &Managed) -> Vec<u8> {
+        m.world.as_ref().unwrap().canon()
+    }
+
+    fn deviation(&self, op: &Op) -> u32 {
+        match op {
+            Op::Tick(_) | Op::Commit(_) | Op::GhostExec(_) | Op::Restart(_) => 0,
+            Op::Exec { fate, .. } => (*fate != Fate::Deliver) as u32,
+            _ => 1,
+        }
+    }
+
+    fn interesting(&self, op: &Op, obs: &str) -> bool {
+        self.deviation(op) > 0 || obs.contains("=> -") || obs.contains("unreconciled") || obs.contains("commits")
+    }
+
+    fn required_labels(&self) -> Vec<String> {
+        ["Tick", "Exec", "Commit"].iter().map(|s| s.to_string()).collect()
+    }
+}
+
+fn configs(cli: &Cli) -> Vec<(Cfg, usize, u32)> {
+    let base = Cfg {
+        name: String::new(),
+        replicas: 2,
+        nodes: 3,
+        budget: 0,
+        stream_max_len: 1000,
+        exact_trim: false,
+        max_height: 2,
+        max_epoch: 3,
+        max_crashes: 1,
+        allow_release: true,
+    };
+    let mut v = vec![];
+    match cli.tier {
+        Tier::Quick => {
+            v.push((Cfg { name: "C25/r2n3b0/h2".into(), ..base.clone() }, 400, 1));
+        }
+        Tier::Thorough => {
+            v.push((Cfg { name: "C25/r2n3b0/h2".into(), ..base.clone() }, 400, 2));
+        }
+    }
+    v
+}
+
 fn main() {
-    mcx::machinery_failure("not built yet");
+    let cli = Cli::parse();
+    if cli.property != "C25" {
+        machinery_failure(&format!("vh-redis does not serve {}", cli.property));
+    }
+    let cfgs = configs(&cli);
+    if let Some(path) = &cli.replay {
+        let rf = load_replay(path);
+        for (cfg, _, _) in cfgs {
+            if cfg.name == rf.subject {
+                replay_and_exit(&C25 { cfg }, &rf);
+            }
+        }
+        machinery_failure("replay: unknown subject");
+    }
+    let mut run = Run::new(&cli, "model_checking");
+    for (cfg, depth, devs) in cfgs {
+        let s = C25 { cfg };
+        let b = Bounds::new(depth, &cli).deviations(devs);
+        let r = explore(&s, &b);
+        run.add(r);
+    }
+    run.note("world_rebuilds_for_age_or_hiccup", json!(REBUILDS.load(Ordering::Relaxed)));
+    run.note(
+        "outcome_counts",
+        json!({
+            "HEIGHT_EXISTS": HEIGHT_EXISTS.load(Ordering::Relaxed),
+            "FENCING_ERROR": FENCED.load(Ordering::Relaxed),
+            "LOCK_HELD": LOCK_HELD.load(Ordering::Relaxed),
+            "unreconciled_results": UNRECONCILED.load(Ordering::Relaxed),
+            "repair_writes": REPAIR_WRITES.load(Ordering::Relaxed),
+            "leader_changes": LEADER_CHANGES.load(Ordering::Relaxed),
+            "diag_two_entries_same_height_on_one_node": NODE_HEIGHT_DUP.load(Ordering::Relaxed),
+        }),
+    );
+    run.assume("mini-Lua and MiniRedis are trusted re-implementations of the Lua 5.1 subset and the Redis commands the six scripts use (no redis-server/Lua exists in the sandbox); they abort on anything outside that subset");
+    run.assume("the replica driver (Tick/Commit) restates what PoA MainTask and the importer do around the adapter: leader_state(next) -> publish before local commit, publish error => release, reconciled blocks imported in order");
+    run.assume("a timed-out / failed script call is presented to the client as an error reply (the adapter treats timeout and error alike); lease/node timeouts are set to one hour so real time never decides");
+    run.finish();
+}
+
+#[cfg(test)]
+mod tests {
+    use super::*;
+
+    fn cfg() -> Cfg {
+        Cfg {
+            name: "t".into(),
+            replicas: 2,
+            nodes: 3,
+            budget: 0,
+            stream_max_len: 1000,
+            exact_trim: false,
+            max_height: 2,
+            max_epoch: 5,
+            max_crashes: 1,
+            allow_release: true,
+        }
+    }
+
+    fn deliver_all(w: &mut World) {
+        loop {
+            let Some(op) = w.enabled().into_iter().find(|o| matches!(o, Op::Exec { fate: Fate::Deliver, .. })) else { break };
+            let obs = w.apply(&op).unwrap();
+            println!("  {op:?} -> {obs}");
+            w.check().unwrap();
+        }
+    }
+
+    #[test]
+    fn single_replica_smoke() {
+        let mut w = World::new(cfg()).unwrap();
+        for h in 1..=2u32 {
+            println!("{}", w.apply(&Op::Tick(0)).unwrap());
+            deliver_all(&mut w);
+            assert!(matches!(w.reps[0].phase, world::Phase::ReadyToCommit(_)), "{:?}", w.reps[0].phase);
+            println!("{}", w.apply(&Op::Commit(0)).unwrap());
+            assert_eq!(w.last_height(0), h);
+        }
+        // the other replica is a follower, then takes over after expiry and reconciles
+        println!("{}", w.apply(&Op::Tick(1)).unwrap());
+        deliver_all(&mut w);
+        assert_eq!(w.reps[1].phase, world::Phase::Idle);
+        println!("{}", w.apply(&Op::ExpireAll).unwrap());
+        println!("{}", w.apply(&Op::Tick(1)).unwrap());
+        deliver_all(&mut w);
+        assert!(matches!(w.reps[1].phase, world::Phase::ReadyToImport(_)), "{:?}", w.reps[1].phase);
+        w.apply(&Op::Commit(1)).unwrap();
+        w.apply(&Op::Commit(1)).unwrap();
+        w.check().unwrap();
+        assert_eq!(w.reps[0].db, w.reps[1].db);
+        println!("{}", String::from_utf8_lossy(&w.canon()));
+    }
 }
